@@ -25,3 +25,27 @@ package graph
 
 // rowW(l, s): sum of widths plus s between consecutive nodes
 //@ spec rowW(l *Layer, s float64) float64 = len(l.Nodes) > 0 ? rowPre(l, len(l.Nodes), s) - s : 0.0
+
+// rowSuf(l, j, s): sum over the nodes j, j+1, ... of band l of (width + s)
+//@ spec rowSuf(l *Layer, j int, s float64) float64 = j >= len(l.Nodes) ? 0.0 : rowSuf(l, j+1, s) + l.Nodes[j].W + s
+
+// bandY(g, k, ls): y of band k when bands are stacked with their heights plus ls
+//@ spec bandY(g *DGraph, k int, ls float64) float64 = k <= 0 ? 0.0 : bandY(g, k-1, ls) + g.Layers[k-1].H + ls
+
+//@ spec bandHeightsNonNeg(g *DGraph) bool = forall b int :: 0 <= b && b < len(g.Layers) ==> g.Layers[b].H >= 0.0
+
+// ---------------------------------------------------------------------------
+// postcondition vocabulary of the positioners (phase 4), shared with the property lemmas in /verif/spec
+
+//@ spec sepOK(g *DGraph, s float64) bool =
+//@   forall b int, i int, j int :: 0 <= b && b < len(g.Layers) && 0 <= i && i < j && j < len(g.Layers[b].Nodes) ==>
+//@     g.Layers[b].Nodes[i].X + g.Layers[b].Nodes[i].W + s <= g.Layers[b].Nodes[j].X
+
+//@ spec xNonNeg(g *DGraph) bool =
+//@   forall b int, k int :: 0 <= b && b < len(g.Layers) && 0 <= k && k < len(g.Layers[b].Nodes) ==> g.Layers[b].Nodes[k].X >= 0.0
+
+//@ spec heightsOK(g *DGraph) bool =
+//@   forall b int, k int :: 0 <= b && b < len(g.Layers) && 0 <= k && k < len(g.Layers[b].Nodes) ==> g.Layers[b].H >= g.Layers[b].Nodes[k].H
+
+//@ spec bandYOK(g *DGraph, ls float64) bool =
+//@   forall k int, j int :: 0 <= k && k < len(g.Layers) && 0 <= j && j < len(g.Layers[k].Nodes) ==> g.Layers[k].Nodes[j].Y == bandY(g, k, ls)
